@@ -10,6 +10,7 @@ import (
 	"hash/fnv"
 	"net"
 	"net/http"
+	"net/url"
 	"sort"
 	"sync"
 	"time"
@@ -423,8 +424,10 @@ func (p *PeerPool) forwardRelease(ctx context.Context, owner, subscriberID strin
 		return fmt.Errorf("no address for peer %s", owner)
 	}
 
-	url := fmt.Sprintf("http://%s/pool/release/%s", peerAddr, subscriberID)
-	httpReq, err := http.NewRequestWithContext(ctx, "DELETE", url, nil)
+	// The subscriber ID is one path segment: escape what has a meaning in a URL
+	// (circuit-ids contain '/', '#', '?', '%', spaces ...)
+	reqURL := fmt.Sprintf("http://%s/pool/release/%s", peerAddr, url.PathEscape(subscriberID))
+	httpReq, err := http.NewRequestWithContext(ctx, "DELETE", reqURL, nil)
 	if err != nil {
 		return fmt.Errorf("create request: %w", err)
 	}
